@@ -123,7 +123,12 @@ fn observe<V: Validation>(v: &V, f: &dyn Fn(&V::Error) -> String) -> String {
 
 pub fn eval(op: &str, t: &mut Toks) -> R<String> {
     match op {
-        "C14.valid" => {
+        "C14.valid" | "C14.jts" => {
+            if op == "C14.jts" {
+                // expected answer from the JTS test file; used by the driver to cross-check the
+                // *specification*, not passed to geo
+                let _label = t.tok()?;
+            }
             let g = t.geom()?;
             let via_enum = observe(&g, &fmt_g);
             let concrete = match &g {
